@@ -53,10 +53,12 @@ var universe = []tyInfo{
 	{name: "T1", rt: reflect.TypeOf(u.T1{}), val: func() any { return u.T1{X: 1} }, zval: func() any { return u.T1{} }},
 	{name: "T2", rt: reflect.TypeOf(u.T2{}), val: func() any { return u.T2{Y: 2} }, zval: func() any { return u.T2{} }},
 	{name: "T3", rt: reflect.TypeOf(u.T3{}), val: func() any { return u.T3{Z: 3} }, zval: func() any { return u.T3{} }},
-	{name: "M", rt: reflect.TypeOf(map[string]any{}), val: func() any { return map[string]any{"k": 1} }},
-	// no typed nil NM value: two nil maps meeting at a fan-in merge successfully, and the model does not
-	// predict what happens behind a merge (RMerge); the non-nil values collide on their key
-	{name: "NM", rt: reflect.TypeOf(u.NM{}), val: func() any { return u.NM{"k": 1} }},
+	// the "empty" map values (round 5): "Mz" = the empty map, "NMz" = the typed nil map.  Two of them meeting at a
+	// fan-in merge successfully (the non-nil values collide on their key), and the model does not predict what
+	// happens behind a merge (RMerge); a node with an input key does not find its key in them.  So they are used
+	// only in the runs of graphs without a fan-in and without keyed nodes (mapZOK), see optionsForCase.
+	{name: "M", rt: reflect.TypeOf(map[string]any{}), val: func() any { return map[string]any{"k": 1} }, zval: func() any { return map[string]any{} }},
+	{name: "NM", rt: reflect.TypeOf(u.NM{}), val: func() any { return u.NM{"k": 1} }, zval: func() any { return u.NM(nil) }},
 	{name: "P1", rt: reflect.TypeOf(&u.T1{}), val: func() any { return &u.T1{X: 1} }, zval: func() any { return (*u.T1)(nil) }},
 	{name: "P3", rt: reflect.TypeOf(&u.T3{}), val: func() any { return &u.T3{Z: 3} }, zval: func() any { return (*u.T3)(nil) }},
 	{name: "BI", rt: reflect.TypeOf(u.Box[int]{}), val: func() any { return u.Box[int]{V: 7} }, zval: func() any { return u.Box[int]{} }},
@@ -256,6 +258,20 @@ func dynAssignable(d, t string) bool {
 		return dt == t
 	}
 	return rtypes[dt].Implements(rtypes[t])
+}
+
+// the empty map values
+func isMapZ(d string) bool { return d == "Mz" || d == "NMz" }
+
+// values a producer of static type t can emit, without the empty map values
+func optionsNoMapZ(t string) []string {
+	var out []string
+	for _, d := range optionsFor(t) {
+		if !isMapZ(d) {
+			out = append(out, d)
+		}
+	}
+	return out
 }
 
 // values a producer of static type t can emit
